@@ -401,6 +401,14 @@ func c08(c *Ctx) (*report.Result, error) {
 	checkLockPairing(c, res, "O8.13", []string{"proxy"}, 80)
 	res.RuleDoc["O8.14"] = "the registry accessors do what the incarnations rely on: every Set / Register accessor of the shard manager stores its value parameter under its key parameter on every path, every Remove / Unregister contains the delete of its key parameter (when it may run is O8.1), and the four callback setters install the handler they are given"
 	checkRegistryAccessors(c, res, "O8.14")
+	res.RuleDoc["O8.15"] = "no handler is parked and none cleans up under running workers: for every local sync.WaitGroup of package proxy's stream files the Add count equals the number of goroutines started with it, each calls Done from an entry-block defer, none is called synchronously, and no return after the last `go` avoids Wait (proxyStreamSender.Run, which does not wait by design, is the reviewed exception) - otherwise the handler is parked for ever or cleans up under running workers"
+	checkWaitGroups(c, res, "O8.15", []string{"proxy/proxy_streams.go", "proxy/admin_stream_transfer.go", "proxy/intra_proxy_router.go"}, 4)
+	res.RuleDoc["O8.16"] = "a routed receiver leaves no stream behind: the context on which proxyStreamReceiver.Run opens its stream is cancelled by a defer registered before any return"
+	for _, a := range []anchor{{"proxy", "*proxyStreamReceiver", "Run"}} {
+		if g := resolve(c, res, "O8.16", a); g != nil {
+			checkDeferredCancel(c, res, "O8.16", g)
+		}
+	}
 	res.RuleDoc["O8.11"] = "no swallowed error in the files the mechanism lives in: no function returns a nil error on a path on which an error obtained from a call is known to be non-nil (io.EOF from a stream Recv, the normal end of a receive loop, is the one accepted idiom)"
 	checkNoSwallowedErrors(c, res, "O8.11", []string{"proxy/proxy_streams.go", "proxy/intra_proxy_router.go", "proxy/shard_manager.go"})
 	return res, nil
